@@ -241,4 +241,4 @@ Definition case := (call * outcome)%type.
 
 Definition check_case (cs : case) : nat :=
   let '(c, o) := cs in
-  verdict (if scope c && has_amb c then true else outcome_eqb o (fimo_fast c)) (spec_ok c o).
+  verdict (if outcome_eqb o (fimo_fast c) then true else scope c && has_amb c) (spec_ok c o).
